@@ -109,6 +109,21 @@ def run(rep, idx, tier):
     decode_address(rep, idx)
     window_size(rep, idx)
     authority(rep, idx)
+    # C03.8 the look-ups answer from the tables, never from the placement cursor: the cursor is where the *next implicit* item goes
+    # (the end of the most recently added one), not a bound of what is assigned -- items placed explicitly may lie above it
+    import ast as _ast
+    rep.require("C03.8", 6)
+    for q in ("resources", "windows", "window_patterns", "all_resources", "find_resource", "decode_address"):
+        try:
+            f = idx.find_func("memory:MemoryMap." + q)
+        except Exception:
+            rep.unk("C03.8", "memory.py", f"{q}() does not consult the placement cursor", "function not found")
+            continue
+        reads = [n for n in _ast.walk(f.node) if isinstance(n, _ast.Attribute) and n.attr in ("_next_addr", "_cursor") and isinstance(n.ctx, _ast.Load)]
+        rep.check(not reads, "C03.8", f.site, f"{q}() does not consult the placement cursor",
+                  f"reads self.{reads[0].attr if reads else ''} at line {reads[0].lineno if reads else ''}: the cursor is the end of the most "
+                  "recently added item, and an item added at an explicit address before it lies above the cursor -- a look-up bounded by "
+                  "the cursor does not see it, although the tables (and the hardware built from them) do", nontrivial=False)
     # the queries refuse nothing: "every other address decodes to nothing", an object never added is a KeyError and nothing else
     from .common import closed_refusals, check_refusal
     rep.require("C03.7", 2)
@@ -386,7 +401,8 @@ def direct_wrong(c, v, obj, rng):
     if path[0] == 'call' and path[1] in (('name', 'tuple'), ('name', 'list')) and len(path[2]) == 1 and path[2][0][0] != 'gen':
         return ("the path is tuple(<name>): a name is itself a tuple of parts, so this explodes it into one path element per part "
                 "instead of the one-element path (<name>,)")
-    if obj == ('name', 'resource') and path == c.parse("self._resources[id(resource)][1]"):
+    stored_name = ('sub', ('sub', c.parse("self._resources"), ('call', ('name', 'id'), (obj,), ())), ('const', 1))
+    if path == stored_name or (obj == ('name', 'resource') and path == c.parse("self._resources[id(resource)][1]")):
         return ("the path is the stored name itself: a name is a tuple of parts, so ResourceInfo takes each part for a path element "
                 "instead of the one-element path (<name>,)")
     if width != c.parse("self.data_width"):
